@@ -17,7 +17,8 @@ thread_local! {
     static TASKS: RefCell<Vec<(u64, Option<Task>, String)>> = RefCell::new(Vec::new());
     static TASK_SEQ: RefCell<u64> = RefCell::new(0);
     static TASK_LABEL: RefCell<String> = RefCell::new(String::new());
-    static FS: RefCell<BTreeMap<PathBuf, Vec<u8>>> = RefCell::new(BTreeMap::new());
+    static FS: RefCell<BTreeMap<PathBuf, fs::Inode>> = RefCell::new(BTreeMap::new());
+    static FS_INTRUDER: RefCell<Option<Box<dyn FnMut(&str)>>> = RefCell::new(None);
     static FS_FAIL_WRITES: RefCell<bool> = RefCell::new(false);
     static FS_TORN: RefCell<Option<usize>> = RefCell::new(None);
     static HTABLE: RefCell<Vec<(Vec<u8>, SymU<256>)>> = RefCell::new(Vec::new());
@@ -35,6 +36,7 @@ pub fn reset() {
     FS.with(|f| f.borrow_mut().clear());
     FS_FAIL_WRITES.with(|f| *f.borrow_mut() = false);
     FS_TORN.with(|f| *f.borrow_mut() = None);
+    FS_INTRUDER.with(|f| *f.borrow_mut() = None);
     HTABLE.with(|h| h.borrow_mut().clear());
     CLOCK.with(|c| *c.borrow_mut() = None);
 }
@@ -235,37 +237,111 @@ pub mod mpsc {
 }
 
 // ---------------- in-memory file system ----------------
+/// POSIX-like model: a directory maps paths to inodes; open handles keep their inode across
+/// rename / unlink and have their own position; opening without truncation keeps the old bytes;
+/// `File::create` / `fs::write` truncate the existing inode in place (other handles see it).
 pub mod fs {
     use super::*;
     use std::io;
 
+    pub(super) type Inode = Rc<RefCell<Vec<u8>>>;
+
+    fn intrude(op: &str) {
+        // a concurrently running process registered by the harness may act before this operation
+        let f = FS_INTRUDER.with(|i| i.borrow_mut().take());
+        if let Some(mut f) = f {
+            f(op);
+            FS_INTRUDER.with(|i| {
+                let mut slot = i.borrow_mut();
+                if slot.is_none() {
+                    *slot = Some(f);
+                }
+            });
+        }
+    }
+    /// `f(op)` is called before every file-system operation of the code under test (never re-entrantly)
+    pub fn set_intruder(f: Option<Box<dyn FnMut(&str)>>) {
+        FS_INTRUDER.with(|i| *i.borrow_mut() = f);
+    }
+    fn lookup(p: &Path) -> Option<Inode> {
+        FS.with(|f| f.borrow().get(p).cloned())
+    }
+    fn not_found() -> io::Error {
+        io::Error::new(io::ErrorKind::NotFound, "no such file")
+    }
+    /// writes `bytes` at `pos` into the inode; honours an armed torn write (prefix, then crash)
+    fn write_at(inode: &Inode, pos: usize, bytes: &[u8]) -> usize {
+        let torn = FS_TORN.with(|f| f.borrow_mut().take());
+        let n = match torn {
+            Some(n) => n.min(bytes.len()),
+            None => bytes.len(),
+        };
+        {
+            let mut c = inode.borrow_mut();
+            if c.len() < pos {
+                c.resize(pos, 0);
+            }
+            let overlap = (c.len() - pos).min(n);
+            c[pos..pos + overlap].copy_from_slice(&bytes[..overlap]);
+            c.extend_from_slice(&bytes[overlap..n]);
+        }
+        if torn.is_some() {
+            std::panic::resume_unwind(Box::new(super::Crash));
+        }
+        n
+    }
+
     pub fn write<P: AsRef<Path>, C: AsRef<[u8]>>(p: P, c: C) -> io::Result<()> {
+        intrude("write");
         if FS_FAIL_WRITES.with(|f| *f.borrow()) {
             return Err(io::Error::new(io::ErrorKind::Other, "injected write failure"));
         }
-        let torn = FS_TORN.with(|f| f.borrow_mut().take());
-        let bytes = c.as_ref();
-        match torn {
-            Some(n) => {
-                // crash in the middle of this write: only a prefix reaches the file
-                let n = n.min(bytes.len());
-                FS.with(|f| f.borrow_mut().insert(p.as_ref().to_path_buf(), bytes[..n].to_vec()));
-                std::panic::resume_unwind(Box::new(super::Crash));
+        // std::fs::write = create (truncating the existing inode) + write_all
+        let inode = match lookup(p.as_ref()) {
+            Some(i) => {
+                i.borrow_mut().clear();
+                i
             }
             None => {
-                FS.with(|f| f.borrow_mut().insert(p.as_ref().to_path_buf(), bytes.to_vec()));
-                Ok(())
+                let i: Inode = Rc::new(RefCell::new(vec![]));
+                FS.with(|f| f.borrow_mut().insert(p.as_ref().to_path_buf(), i.clone()));
+                i
             }
-        }
+        };
+        write_at(&inode, 0, c.as_ref());
+        Ok(())
     }
     pub fn read<P: AsRef<Path>>(p: P) -> io::Result<Vec<u8>> {
-        FS.with(|f| f.borrow().get(p.as_ref()).cloned())
-            .ok_or_else(|| io::Error::new(io::ErrorKind::NotFound, "no such file"))
+        intrude("read");
+        lookup(p.as_ref()).map(|i| i.borrow().clone()).ok_or_else(not_found)
+    }
+    pub fn read_to_string<P: AsRef<Path>>(p: P) -> io::Result<String> {
+        String::from_utf8(read(p)?).map_err(|_| io::Error::new(io::ErrorKind::InvalidData, "stream did not contain valid UTF-8"))
     }
     pub fn remove_file<P: AsRef<Path>>(p: P) -> io::Result<()> {
-        FS.with(|f| f.borrow_mut().remove(p.as_ref()))
-            .map(|_| ())
-            .ok_or_else(|| io::Error::new(io::ErrorKind::NotFound, "no such file"))
+        intrude("remove_file");
+        FS.with(|f| f.borrow_mut().remove(p.as_ref())).map(|_| ()).ok_or_else(not_found)
+    }
+    pub fn rename<P: AsRef<Path>, Q: AsRef<Path>>(from: P, to: Q) -> io::Result<()> {
+        intrude("rename");
+        let i = FS.with(|f| f.borrow_mut().remove(from.as_ref())).ok_or_else(not_found)?;
+        FS.with(|f| f.borrow_mut().insert(to.as_ref().to_path_buf(), i));
+        Ok(())
+    }
+    /// what a private temporary file + rename amounts to: a fresh inode with `bytes` becomes visible at `p` at once
+    pub fn install<P: AsRef<Path>>(p: P, bytes: &[u8]) -> io::Result<()> {
+        intrude("rename");
+        if FS_FAIL_WRITES.with(|f| *f.borrow()) {
+            return Err(io::Error::new(io::ErrorKind::Other, "injected write failure"));
+        }
+        FS.with(|f| f.borrow_mut().insert(p.as_ref().to_path_buf(), Rc::new(RefCell::new(bytes.to_vec()))));
+        Ok(())
+    }
+    pub fn copy<P: AsRef<Path>, Q: AsRef<Path>>(from: P, to: Q) -> io::Result<u64> {
+        let b = read(from)?;
+        let n = b.len() as u64;
+        write(to, b)?;
+        Ok(n)
     }
     pub fn create_dir_all<P: AsRef<Path>>(_p: P) -> io::Result<()> {
         Ok(())
@@ -277,37 +353,131 @@ pub mod fs {
         FS.with(|f| f.borrow().keys().cloned().collect())
     }
     pub fn snapshot() -> BTreeMap<PathBuf, Vec<u8>> {
-        FS.with(|f| f.borrow().clone())
+        FS.with(|f| f.borrow().iter().map(|(k, v)| (k.clone(), v.borrow().clone())).collect())
     }
     pub fn restore(m: BTreeMap<PathBuf, Vec<u8>>) {
-        FS.with(|f| *f.borrow_mut() = m);
+        FS.with(|f| *f.borrow_mut() = m.into_iter().map(|(k, v)| (k, Rc::new(RefCell::new(v)))).collect());
     }
     pub fn set_fail_writes(b: bool) {
         FS_FAIL_WRITES.with(|f| *f.borrow_mut() = b);
     }
-    /// the next `write` stores only the first n bytes and then "crashes" (unwinds with `Crash`)
+    /// the next write (fs::write or one `write` call on a handle) stores only the first n bytes
+    /// and then "crashes" (unwinds with `Crash`)
     pub fn tear_next_write(n: usize) {
         FS_TORN.with(|f| *f.borrow_mut() = Some(n));
     }
 
-    /// `std::fs::File` stand-in: whole-file buffer, flushed on drop / explicit write
+    #[derive(Clone, Debug, Default)]
+    pub struct OpenOptions {
+        read: bool,
+        write: bool,
+        append: bool,
+        truncate: bool,
+        create: bool,
+        create_new: bool,
+    }
+    impl OpenOptions {
+        pub fn new() -> Self {
+            OpenOptions::default()
+        }
+        pub fn read(&mut self, b: bool) -> &mut Self {
+            self.read = b;
+            self
+        }
+        pub fn write(&mut self, b: bool) -> &mut Self {
+            self.write = b;
+            self
+        }
+        pub fn append(&mut self, b: bool) -> &mut Self {
+            self.append = b;
+            self
+        }
+        pub fn truncate(&mut self, b: bool) -> &mut Self {
+            self.truncate = b;
+            self
+        }
+        pub fn create(&mut self, b: bool) -> &mut Self {
+            self.create = b;
+            self
+        }
+        pub fn create_new(&mut self, b: bool) -> &mut Self {
+            self.create_new = b;
+            self
+        }
+        pub fn open<P: AsRef<Path>>(&self, p: P) -> io::Result<File> {
+            intrude("open");
+            let writing = self.write || self.append;
+            if (self.create || self.create_new || self.truncate) && !writing {
+                return Err(io::Error::new(io::ErrorKind::InvalidInput, "create/truncate without write access"));
+            }
+            if !self.read && !writing {
+                return Err(io::Error::new(io::ErrorKind::InvalidInput, "no access mode"));
+            }
+            if writing && FS_FAIL_WRITES.with(|f| *f.borrow()) {
+                return Err(io::Error::new(io::ErrorKind::Other, "injected open-for-write failure"));
+            }
+            let inode = match lookup(p.as_ref()) {
+                Some(_) if self.create_new => return Err(io::Error::new(io::ErrorKind::AlreadyExists, "file exists")),
+                Some(i) => i,
+                None if self.create || self.create_new => {
+                    let i: Inode = Rc::new(RefCell::new(vec![]));
+                    FS.with(|f| f.borrow_mut().insert(p.as_ref().to_path_buf(), i.clone()));
+                    i
+                }
+                None => return Err(not_found()),
+            };
+            if self.truncate {
+                inode.borrow_mut().clear();
+            }
+            Ok(File { inode, pos: std::cell::Cell::new(0), readable: self.read, writable: writing, append: self.append })
+        }
+    }
+
+    /// `std::fs::File` stand-in: a handle on an inode with its own position
     pub struct File {
-        path: PathBuf,
-        buf: Vec<u8>,
+        inode: Inode,
         pos: std::cell::Cell<usize>,
+        readable: bool,
         writable: bool,
+        append: bool,
+    }
+    pub struct Metadata(u64);
+    impl Metadata {
+        pub fn len(&self) -> u64 {
+            self.0
+        }
+        pub fn is_file(&self) -> bool {
+            true
+        }
     }
     impl File {
         pub fn open<P: AsRef<Path>>(p: P) -> io::Result<File> {
-            let buf = read(&p)?;
-            Ok(File { path: p.as_ref().to_path_buf(), buf, pos: std::cell::Cell::new(0), writable: false })
+            OpenOptions::new().read(true).open(p)
         }
         pub fn create<P: AsRef<Path>>(p: P) -> io::Result<File> {
-            if FS_FAIL_WRITES.with(|f| *f.borrow()) {
-                return Err(io::Error::new(io::ErrorKind::Other, "injected create failure"));
+            OpenOptions::new().write(true).create(true).truncate(true).open(p)
+        }
+        pub fn options() -> OpenOptions {
+            OpenOptions::new()
+        }
+        pub fn sync_all(&self) -> io::Result<()> {
+            intrude("sync");
+            Ok(())
+        }
+        pub fn sync_data(&self) -> io::Result<()> {
+            intrude("sync");
+            Ok(())
+        }
+        pub fn set_len(&self, n: u64) -> io::Result<()> {
+            intrude("set_len");
+            if !self.writable {
+                return Err(io::Error::new(io::ErrorKind::InvalidInput, "not opened for writing"));
             }
-            FS.with(|f| f.borrow_mut().insert(p.as_ref().to_path_buf(), vec![]));
-            Ok(File { path: p.as_ref().to_path_buf(), buf: vec![], pos: std::cell::Cell::new(0), writable: true })
+            self.inode.borrow_mut().resize(n as usize, 0);
+            Ok(())
+        }
+        pub fn metadata(&self) -> io::Result<Metadata> {
+            Ok(Metadata(self.inode.borrow().len() as u64))
         }
     }
     impl io::Read for File {
@@ -317,22 +487,53 @@ pub mod fs {
     }
     impl io::Read for &File {
         fn read(&mut self, out: &mut [u8]) -> io::Result<usize> {
-            let pos = self.pos.get();
-            let n = out.len().min(self.buf.len() - pos);
-            out[..n].copy_from_slice(&self.buf[pos..pos + n]);
+            if !self.readable {
+                return Err(io::Error::new(io::ErrorKind::Other, "not opened for reading"));
+            }
+            let c = self.inode.borrow();
+            let pos = self.pos.get().min(c.len());
+            let n = out.len().min(c.len() - pos);
+            out[..n].copy_from_slice(&c[pos..pos + n]);
             self.pos.set(pos + n);
             Ok(n)
         }
     }
     impl io::Write for File {
         fn write(&mut self, b: &[u8]) -> io::Result<usize> {
-            assert!(self.writable);
-            self.buf.extend_from_slice(b);
-            FS.with(|f| f.borrow_mut().insert(self.path.clone(), self.buf.clone()));
-            Ok(b.len())
+            (&*self).write(b)
         }
         fn flush(&mut self) -> io::Result<()> {
             Ok(())
+        }
+    }
+    impl io::Write for &File {
+        fn write(&mut self, b: &[u8]) -> io::Result<usize> {
+            intrude("write");
+            if !self.writable {
+                return Err(io::Error::new(io::ErrorKind::Other, "not opened for writing"));
+            }
+            let pos = if self.append { self.inode.borrow().len() } else { self.pos.get() };
+            let n = write_at(&self.inode, pos, b);
+            self.pos.set(pos + n);
+            Ok(n)
+        }
+        fn flush(&mut self) -> io::Result<()> {
+            Ok(())
+        }
+    }
+    impl io::Seek for File {
+        fn seek(&mut self, to: io::SeekFrom) -> io::Result<u64> {
+            let len = self.inode.borrow().len() as i64;
+            let np = match to {
+                io::SeekFrom::Start(n) => n as i64,
+                io::SeekFrom::End(d) => len + d,
+                io::SeekFrom::Current(d) => self.pos.get() as i64 + d,
+            };
+            if np < 0 {
+                return Err(io::Error::new(io::ErrorKind::InvalidInput, "seek before start"));
+            }
+            self.pos.set(np as usize);
+            Ok(np as u64)
         }
     }
 }
